@@ -2,8 +2,8 @@
 from ..rules import topology, delivery, flow
 from .common import declare
 
-RULES = ['FANOUT', 'EMIT-SIG', 'PASS-VALUE', 'FIFO-END', 'SWAP-ATOMIC', 'FLUSH-RESETS', 'STATE-PER-INSTANCE', 'FRESH-READ', 'REVERSED-STACK', 'FLAT-RETURN', 'PROPAGATE', 'NONE-SENTINEL', 'ELEMENT-MEMBERSHIP', 'EAGER-UPDATE', 'NONE-BOUND', 'DESTROY-SUPER']
-FLOORS = {'FANOUT': 4, 'EMIT-SIG': 30, 'PASS-VALUE': 14, 'FIFO-END': 10, 'SWAP-ATOMIC': 6, 'FLAT-RETURN': 20, 'PROPAGATE': 30, 'DESTROY-SUPER': 3}     # (NONE-BOUND: no floor - the hazard need not exist; its positive example is the seeded mutant c01-unique-truncates-with-none-bound, run by the thorough tier)
+RULES = ['USER-CALL-SHAPE', 'FANOUT', 'EMIT-SIG', 'PASS-VALUE', 'FIFO-END', 'SWAP-ATOMIC', 'FLUSH-RESETS', 'STATE-PER-INSTANCE', 'FRESH-READ', 'REVERSED-STACK', 'FLAT-RETURN', 'PROPAGATE', 'NONE-SENTINEL', 'ELEMENT-MEMBERSHIP', 'EAGER-UPDATE', 'NONE-BOUND', 'DESTROY-SUPER']
+FLOORS = {'USER-CALL-SHAPE': 4, 'FANOUT': 4, 'EMIT-SIG': 30, 'PASS-VALUE': 14, 'FIFO-END': 10, 'SWAP-ATOMIC': 6, 'FLAT-RETURN': 20, 'PROPAGATE': 30, 'DESTROY-SUPER': 3}     # (NONE-BOUND: no floor - the hazard need not exist; its positive example is the seeded mutant c01-unique-truncates-with-none-bound, run by the thorough tier)
 CATALOGUE = ('Stream', 'map', 'starmap', 'filter', 'accumulate', 'slice', 'partition', 'partition_unique',
              'sliding_window', 'unique', 'flatten', 'pluck', 'collect', 'union', 'zip', 'combine_latest', 'zip_latest')
 
@@ -31,6 +31,8 @@ def run(ctx, R):
     core = [c for c in M.nodes if c.module.name in ('streamz.core', 'streamz.sinks')]
     R.run(delivery.check_fanout, ctx, R)
     R.run(delivery.check_emit_sig, ctx, R, core)
+    # the list-level meaning of map / starmap / filter / sink: how the user callable is applied to the element
+    R.run(flow.check_user_call_shape, ctx, R)
     R.run(delivery.check_pass_value, ctx, R, core)
     R.run(delivery.check_fifo_end, ctx, R, core)
     R.run(delivery.check_swap_atomic, ctx, R, core)
